@@ -12,6 +12,7 @@ from typing import ClassVar
 
 from exabgp.bgp.message.update.attribute.sr.srv6.sidinformation import Srv6SidInformation
 from exabgp.util.types import Buffer
+from exabgp.bgp.message.notification import Notify
 
 # 3.2.1.  SRv6 SID Structure Sub-Sub-TLV
 #
@@ -84,7 +85,10 @@ class Srv6SidStructure:
 
     @classmethod
     def unpack_attribute(cls, data: Buffer, length: int) -> Srv6SidStructure:
-        # Validation happens in __init__
+        # the size is the peer's: refuse it with a NOTIFICATION, as the other Prefix-SID TLVs do; the ValueError of
+        # __init__ (meant for our own construction) left the UPDATE decoder untyped
+        if len(data) < cls.LENGTH:
+            raise Notify(3, 5, f'Invalid SRv6 SID Structure sub-sub-TLV size {len(data)}, should be {cls.LENGTH}')
         return cls(data[: cls.LENGTH])
 
     def pack_tlv(self) -> bytes:
